@@ -244,6 +244,150 @@ func checkC20(p *core.Program, r *core.Report) {
 			r.OK(rule, id+" protected by "+m, p.Pos(ws[0].in.Pos()), fmt.Sprintf("%d writes, %d reads under the mutex", len(ws), len(rs)))
 		}
 	}
+	// ---- R4: package-level variables written after initialisation
+	const R4 = "C20.R4 package-variables"
+	r.Rule(R4, "a package-level variable that is written outside package initialisation is written under one common mutex and read under it (a lazily filled cache shared by all connections is a race between the first writers)")
+	{
+		type gacc struct {
+			fn    *ssa.Function
+			in    ssa.Instruction
+			write bool
+			locks core.LockSet
+		}
+		gaccs := map[*ssa.Global][]gacc{}
+		for _, fn := range fns {
+			isInit := fn.Name() == "init" || strings.HasPrefix(fn.Name(), "init#") || fn.Synthetic != ""
+			core.EachInstr(fn, func(in ssa.Instruction) {
+				var g *ssa.Global
+				write := false
+				switch x := in.(type) {
+				case *ssa.UnOp:
+					if x.Op == token.MUL {
+						g, _ = x.X.(*ssa.Global)
+					}
+				case *ssa.Store:
+					g, _ = x.Addr.(*ssa.Global)
+					write = true
+				}
+				if g == nil || g.Pkg == nil || !p.InRepo(fn) || strings.HasPrefix(g.Name(), "init$") {
+					return
+				}
+				if isInit && write {
+					return // package initialisation happens before any goroutine of the library exists
+				}
+				gaccs[g] = append(gaccs[g], gacc{fn, in, write, li.Must[in]})
+			})
+		}
+		var gs []*ssa.Global
+		for g := range gaccs {
+			gs = append(gs, g)
+		}
+		sort.Slice(gs, func(i, j int) bool { return gs[i].String() < gs[j].String() })
+		nglob := 0
+		for _, g := range gs {
+			var ws, rs []gacc
+			for _, a := range gaccs[g] {
+				if a.write {
+					ws = append(ws, a)
+				} else {
+					rs = append(rs, a)
+				}
+			}
+			if len(ws) == 0 {
+				continue // initialised once, read-only afterwards
+			}
+			nglob++
+			id := g.Pkg.Pkg.Name() + "." + g.Name()
+			var common core.LockSet
+			for _, w := range ws {
+				ex := core.LockSet{}
+				for k := range w.locks {
+					if !strings.HasSuffix(k, "#R") {
+						ex[k] = true
+					}
+				}
+				if common == nil {
+					common = ex
+				} else {
+					common = common.Intersect(ex)
+				}
+			}
+			if len(common) == 0 {
+				r.Fail(R4, id+" write in "+p.FnName(ws[0].fn), p.Pos(ws[0].in.Pos()), fmt.Sprintf("package variable %s is written after initialisation without a mutex common to its %d write site(s): every connection / API call of the process shares it", id, len(ws)))
+				continue
+			}
+			bad := false
+			for _, rd := range rs {
+				held := false
+				for k := range common {
+					if rd.locks[k] || rd.locks[k+"#R"] {
+						held = true
+					}
+				}
+				if !held && !bad {
+					bad = true
+					r.Fail(R4, id+" read in "+p.FnName(rd.fn), p.Pos(rd.in.Pos()), fmt.Sprintf("package variable %s is written under %s but read here holding %s", id, common, rd.locks))
+				}
+			}
+			if !bad {
+				r.OK(R4, id+" protected", p.Pos(ws[0].in.Pos()), fmt.Sprintf("%d writes, %d reads under %s", len(ws), len(rs), common))
+			}
+		}
+		r.OK(R4, "package variables written after initialisation", "", fmt.Sprintf("%d package variables examined, %d written outside init", len(gs), nglob))
+	}
+	// ---- R5: no by-value copy of a lock-bearing record
+	const R5 = "C20.R5 no-copy-of-locked-records"
+	r.Rule(R5, "no repo function loads, by value, a whole struct that contains a sync mutex (e.g. detail := *service.ConnectionStateDetail()): the copy reads every field without the lock and duplicates the mutex in whatever state it is")
+	{
+		var hasLock func(t types.Type, d int) bool
+		hasLock = func(t types.Type, d int) bool {
+			if d > 4 {
+				return false
+			}
+			if n := core.NamedOf(t); n != nil && n.Obj().Pkg() != nil && n.Obj().Pkg().Path() == "sync" {
+				switch n.Obj().Name() {
+				case "Mutex", "RWMutex", "Once", "WaitGroup", "Cond":
+					if _, isPtr := t.(*types.Pointer); !isPtr {
+						return true
+					}
+				}
+			}
+			if _, isPtr := t.(*types.Pointer); isPtr {
+				return false
+			}
+			st, ok := t.Underlying().(*types.Struct)
+			if !ok {
+				return false
+			}
+			for i := 0; i < st.NumFields(); i++ {
+				if hasLock(st.Field(i).Type(), d+1) {
+					return true
+				}
+			}
+			return false
+		}
+		nload, nbad := 0, 0
+		for _, fn := range fns {
+			fn := fn
+			core.EachInstr(fn, func(in ssa.Instruction) {
+				u, ok := in.(*ssa.UnOp)
+				if !ok || u.Op != token.MUL {
+					return
+				}
+				if _, isStruct := u.Type().Underlying().(*types.Struct); !isStruct {
+					return
+				}
+				nload++
+				if hasLock(u.Type(), 0) {
+					nbad++
+					r.Fail(R5, "copy of "+types.TypeString(u.Type(), func(pk *types.Package) string { return pk.Name() })+" in "+p.FnName(fn), p.Pos(in.Pos()), "a struct that carries its own mutex is copied by value: the fields are read without that mutex (racing with every writer) and the copy's mutex may be copied in the locked state, so its accessors block for ever")
+				}
+			})
+		}
+		if nbad == 0 {
+			r.OK(R5, "by-value struct loads", "", fmt.Sprintf("%d struct loads examined, none of a lock-bearing type", nload))
+		}
+	}
 	r.Counts["fields_examined"] = nfields
 	r.Counts["fields_mutex_protected"] = nprot
 	r.Counts["fields_immutable"] = nimm
